@@ -15,7 +15,12 @@ def esc(v):
 PRELUDE = ("tr '\\0' '\\n' < /proc/$$/cmdline > obs/%(s)s.argv; pwd > obs/%(s)s.cwd; "
            "if read x; then echo DATA; else echo EOF; fi > obs/%(s)s.stdin; "
            "readlink /proc/$$/fd/0 > obs/%(s)s.fd0; ")
-PROBE = "ls -l /proc/$$/fd | cat > obs/%(s)s.fds; "
+# The listing is made from a subshell whose output is redirected: the shell forks first and
+# redirects in the child, so the descriptor table of the command's own shell ($$) is listed as
+# n2 made it.  (`ls ... | cat > f` showed, about once in 200 runs and more often on a loaded
+# machine, the pipe the shell had just made for that very pipeline; `ls ... > f` lists the
+# redirection itself, which dash performs in the parent.)
+PROBE = "( ls -l /proc/$$/fd ) > obs/%(s)s.fds; "
 
 class Step:
     def __init__(self, name, body, outs=None, ins=(), oo=(), probe=False, rsp=None, want="ok",
@@ -120,7 +125,49 @@ def parse_tokens(out, nsteps):
 SUMRAN = re.compile(rb"n2: ran (\d+) tasks?, now up to date\n")
 NOTE = re.compile(rb"signal \d+|interrupted")
 
-def console_items(out, steps, verbose=False):
+STATUS = re.compile(rb"^\[([^\]\n]*)\] (\d+)/(\d+) done, (?:(\d+) failed, )?(\d+)/(\d+) running\n", re.M)
+CURSOR_UP = re.compile(rb"\x1b\[(\d+)A")
+
+def fancy_frames(buf, steps):
+    """Cuts what n2 wrote to a terminal into the frames of FancyConsoleProgress (lexically):
+    each frame = flushed text (task output, log lines), the status line, the lines of the running
+    tasks, and the cursor-up count.  Returns (frames, items of all flushed text in order)."""
+    frames = []; items = []
+    for seg in buf.split(b"\r\x1b[J"):
+        text = seg.replace(b"\r\n", b"\n")
+        up = -1
+        m = None
+        for m in CURSOR_UP.finditer(text):
+            pass
+        if m:
+            up = int(m.group(1)); text = text[:m.start()] + text[m.end():]
+        sm = STATUS.search(text)
+        if sm:
+            pre = text[:sm.start()]; after = text[sm.end():]
+            raw = after.split(b"\n")
+            if raw and raw[-1] == b"":
+                raw = raw[:-1]
+            lines = []
+            for ln in raw:
+                try:
+                    ln.decode("utf-8"); ok = True
+                except UnicodeDecodeError:
+                    ok = False
+                kind = "last" if ln.startswith(b"  ") else ("more" if ln.startswith(b"...and ") else "task")
+                lines.append([kind, len(ln), ok])
+            frames.append({"status": True, "bar": sm.group(1).decode("utf-8", "replace"),
+                           "done": int(sm.group(2)), "total": int(sm.group(3)),
+                           "failed": int(sm.group(4) or 0), "run": int(sm.group(5)), "open": int(sm.group(6)),
+                           "lines": lines, "up": up})
+        else:
+            pre = text
+            if up >= 0:
+                frames.append({"status": False, "bar": "", "done": 0, "total": 0, "failed": 0, "run": 0,
+                               "open": 0, "lines": [], "up": up})
+        items += console_items(pre, steps, fancy=True)
+    return frames, items
+
+def console_items(out, steps, verbose=False, fancy=False):
     """Cuts n2's captured output into the items of the console protocol (ExecObs.Con): purely
     lexical, no judgement."""
     msg = {}
@@ -149,6 +196,8 @@ def console_items(out, steps, verbose=False):
             while tail < want_tail and p < n and out[p:p + 1] == b"#":
                 tail += 1; p += 1
             items.append(["pay", steps[st].name if st < len(steps) else "?", first, last, tail])
+            if fancy and tail > 0 and out[p:p + 1] == b"\n":
+                p += 1          # the fancy display ends unterminated output with a newline
             continue
         if out[p:p + 1] == b"#" and items and items[-1][0] in ("msg", "hdr", "failed", "intr"):
             # a payload without a complete token: only the tail bytes
@@ -243,7 +292,7 @@ def observe(sdir, steps, out, j, events, wantexit, exit, wantran=None, verbose=F
                           "hide": bool(getattr(s, "hide", False)),
                           "free": bool(s.depfile and s.want == "fail")} for s in steps}
         events.append({"e": "xcon", "items": console_items(out, steps, verbose), "steps": table,
-                       "ran": sorted(ran), "exit": exit})
+                       "ran": sorted(ran), "exit": exit, "fancy": False})
     events.append({"e": "xend", "exit": exit, "wantexit": wantexit, "j": j, "afterintr": after_intr,
                    "ran": sorted(ran), "wantran": sorted(wantran if wantran is not None else [s.name for s in steps])})
 
@@ -294,7 +343,9 @@ def generate_and_run(tier, seed, wdir):
         #     made again for the next step that needs it
         steps = [Step("g1", "echo a > stage/g1.txt", outs=["stage/g1.txt"]),
                  Step("g2", "rm -rf stage; echo b > g2.out", ins=["stage/g1.txt"]),
-                 Step("g3", "echo c > stage/sub/g3.txt", outs=["stage/sub/g3.txt"], ins=["g2.out"])]
+                 Step("g3", "echo c > stage/g3.txt", outs=["stage/g3.txt"], ins=["g2.out"]),
+                 Step("g4", "rm -rf stage; echo d > g4.out", ins=["stage/g3.txt"]),
+                 Step("g5", "echo e > stage/sub/g5.txt", outs=["stage/sub/g5.txt"], ins=["g4.out"])]
         scenario(n2, root, "outdir-removed", steps, 1, 0, ev)
         # 1c. the console protocol: messages, hidden output, missing description, -v
         def console_steps():
@@ -421,6 +472,44 @@ def generate_and_run(tier, seed, wdir):
             rc, out = run_n2(n2, sdir, ["-j", "2"], use_pty=cols)
             outs_ok = all(os.path.exists(os.path.join(sdir, "t%d.out" % i)) for i in range(4))
             ev.append({"e": "xeq", "props": ["C20"], "tag": "pty-isolation", "a": [rc, outs_ok], "b": [0, True], "cols": cols})
+            frames, items = fancy_frames(out, steps)
+            table = {s.name: {"want": s.want, "ntok": s.ntok, "tail": s.tail, "note": "", "hide": False, "free": False}
+                     for s in steps}
+            ev.append({"e": "xfancy", "cols": cols if cols >= 10 else 80, "j": 2, "frames": frames})
+            ev.append({"e": "xcon", "items": items, "steps": table, "ran": sorted(s.name for s in steps),
+                       "exit": rc, "fancy": True})
+        # 9b. many tasks at once (more than the display lists), long-running ones (time notes),
+        #     a failing one, output without final newline
+        for cols in ((10, 30, 80) if tier == "quick" else (10, 12, 30, 47, 80, 200)):
+            desc = "Ünïcödé task description ☃☃☃ 𝄞 that is certainly longer than a narrow terminal"
+            steps = []
+            for i in range(12):
+                slow = 3.4 if (i == 0 and cols == 30) else 0.3 + 0.05 * (i % 5)
+                body = emit("u%d" % i) + "sleep %.2f; " % slow
+                if i == 5:
+                    steps.append(Step("u%d" % i, body + "exit 4", ntok=2, tail=3, desc="%s %d" % (desc, i), want="fail"))
+                else:
+                    steps.append(Step("u%d" % i, body + "echo x > u%d.out" % i, ntok=2 + i % 3, tail=(i % 2) * 7,
+                                      desc="%s %d" % (desc, i)))
+            sdir = os.path.join(root, "ptyx%d" % cols); shutil.rmtree(sdir, ignore_errors=True)
+            for d in ("obs", "pay", "m"):
+                os.makedirs(os.path.join(sdir, d))
+            for no, s in enumerate(steps):
+                data = token_payload(no, s.ntok, s.tail)
+                a = (s.ntok // 3) * 16; b = (2 * s.ntok // 3) * 16
+                for part, seg in (("a", data[:a]), ("b", data[a:b]), ("c", data[b:])):
+                    open(os.path.join(sdir, "pay", "%s.%s" % (s.name, part)), "w").write(seg)
+            open(os.path.join(sdir, "build.ninja"), "w").write(manifest(steps))
+            ev.append({"e": "xscn", "id": "ptyx%d" % cols})
+            rc, out = run_n2(n2, sdir, ["-j", "11", "-k", "0"], use_pty=cols)
+            outs_ok = all(os.path.exists(os.path.join(sdir, "u%d.out" % i)) for i in range(12) if i != 5)
+            ev.append({"e": "xeq", "props": ["C20"], "tag": "pty-isolation", "a": [rc, outs_ok], "b": [1, True], "cols": cols})
+            frames, items = fancy_frames(out, steps)
+            table = {s.name: {"want": s.want, "ntok": s.ntok, "tail": s.tail, "note": "", "hide": False, "free": False}
+                     for s in steps}
+            ev.append({"e": "xfancy", "cols": cols, "j": 11, "frames": frames})
+            ev.append({"e": "xcon", "items": items, "steps": table, "ran": sorted(s.name for s in steps),
+                       "exit": rc, "fancy": True})
     finally:
         shutil.rmtree(root, ignore_errors=True)
     return ev
